@@ -134,8 +134,9 @@ pub async fn bob_case(w: &World, rng: &mut Rng, script: &Value) -> Value {
             Err(iroh_docs::net::AcceptError::Abort { .. }) => "abort",
             Err(_) => "err",
         };
+        let ns_known = st.namespace().is_some();
         let out = std::panic::catch_unwind(std::panic::AssertUnwindSafe(move || st.into_outcome()));
-        (cls, out.is_ok())
+        (cls, out.is_ok(), ns_known)
     });
     tokio::pin!(task);
     // the peer's own replica, to produce genuine messages
@@ -145,7 +146,7 @@ pub async fn bob_case(w: &World, rng: &mut Rng, script: &Value) -> Value {
     let mut steps = vec![];
     let mut cond = "ok".to_string();
     let mut last_reply: Option<iroh_docs::sync::ProtocolMessage> = None;
-    let mut finished: Option<(&'static str, bool)> = None;
+    let mut finished: Option<(&'static str, bool, bool)> = None;
     let mut hang = false;
     let mut frames: Vec<Value> = script["frames"].as_array().cloned().unwrap_or_default();
     frames.push(json!({"frame":"Eof","fault":""}));
@@ -201,7 +202,7 @@ pub async fn bob_case(w: &World, rng: &mut Rng, script: &Value) -> Value {
         // observe the reaction: a reply frame, or termination
         let reaction = tokio::select! {
             r = &mut task => {
-                let r = r.unwrap_or(("PANIC", false));
+                let r = r.unwrap_or(("PANIC", false, false));
                 finished = Some(r);
                 r.0
             }
@@ -217,8 +218,8 @@ pub async fn bob_case(w: &World, rng: &mut Rng, script: &Value) -> Value {
         if reaction == "abortframe" || reaction == "closed" {
             // the acceptor sent its abort / closed its side: it must now terminate
             let r = tokio::select! {
-                r = &mut task => r.unwrap_or(("PANIC", false)),
-                _ = tokio::time::sleep(WATCHDOG) => { hang = true; ("HANG", true) }
+                r = &mut task => r.unwrap_or(("PANIC", false, false)),
+                _ = tokio::time::sleep(WATCHDOG) => { hang = true; ("HANG", true, false) }
             };
             finished = Some(r);
             reaction = r.0.to_string();
@@ -228,7 +229,7 @@ pub async fn bob_case(w: &World, rng: &mut Rng, script: &Value) -> Value {
             break;
         }
     }
-    let (res, outcome_ok) = finished.unwrap_or(("HANG", true));
+    let (res, outcome_ok, ns_known) = finished.unwrap_or(("HANG", true, false));
     // the store afterwards
     if kept.is_none() {
         kept = handle.shutdown().await.ok();
@@ -238,7 +239,7 @@ pub async fn bob_case(w: &World, rng: &mut Rng, script: &Value) -> Value {
         None => json!("ERR"),
     };
     json!({"ev":"Bob","accept":accept,"steps":steps,"res":res,"outcome": if outcome_ok {"ok"} else {"PANIC"},
-           "changed": before != after, "hang": hang})
+           "changed": before != after, "hang": hang, "ns": ns_known})
 }
 
 const ALICE_FRAMES: &[&str] = &["SyncValid", "SyncValid", "SyncValid", "SyncArb", "InitOk", "Abort", "Garbage", "Oversize", "Partial", "Eof"];
